@@ -3,7 +3,7 @@
    statements that would need a model of reflect to be about gomacro itself; the correspondence run ties them to
    the real interpreter and to compiled Go. *)
 From Coq Require Import List Arith ZArith Bool.
-From Verif Require Import C08.Model C08.Proof.
+From Verif Require Import C08.Model C08.Proof C08.FreshModel C08.FreshProof.
 Import ListNotations.
 Open Scope Z_scope.
 
@@ -100,3 +100,22 @@ Proof. vm_compute. reflexivity. Qed.
 Example C08_ex_ct : gomacro_rejects_index (KArray 3) (Some 5) = false /\ go_rejects_index (KArray 3) (Some 5) = true /\
   gomacro_rejects_slice KSlice (Some (-1)) None None = true /\ gomacro_rejects_index (KConstString 3) (Some 3) = true.
 Proof. vm_compute. repeat split; reflexivity. Qed.
+
+(* ---- allocation sites (C08/FreshModel.v: fast/compositelit.go compositeLitStruct without elements; the same scheme
+   holds for new, make and the other literals) ----
+   n evaluations of ONE source occurrence of an element-less struct literal yield n pairwise distinct NEW variables;
+   a write through one of them is read back through it and through no other *)
+Theorem C08_zero_literal_fresh_per_evaluation : forall n h h1 ls, run_site compile_zero_lit n h = (h1, ls) ->
+  (length ls = n /\ NoDup ls /\ (forall l, In l ls -> length h <= l < length h1) /\
+  (forall i j v, i < n -> j < n -> i <> j ->
+     readc (write h1 (nth j ls 0) v) (nth i ls 0) = readc h1 (nth i ls 0)) /\
+  (forall j v, j < n -> readc (write h1 (nth j ls 0) v) (nth j ls 0) = v))%nat.
+Proof. exact zero_lit_fresh. Qed.
+Print Assumptions C08_zero_literal_fresh_per_evaluation.
+
+(* the variant that makes the zero value once, while compiling, is refuted: two evaluations return the same variable *)
+Theorem C08_hoisted_zero_literal_refuted : exists n h h1 ls i j v,
+  (run_site compile_zero_lit_hoisted n h = (h1, ls) /\ i < n /\ j < n /\ i <> j /\
+  nth i ls 0 = nth j ls 0 /\ readc (write h1 (nth j ls 0) v) (nth i ls 0) <> readc h1 (nth i ls 0))%nat.
+Proof. exact zero_lit_hoisted_refuted. Qed.
+Print Assumptions C08_hoisted_zero_literal_refuted.
